@@ -109,12 +109,24 @@ class Semaphore:
         self.acquired = 0
 
     async def __aenter__(self):
-        self.acquired += 1
+        await self.acquire()
         return self
 
     async def __aexit__(self, *a):
-        self.acquired -= 1
+        self.release()
         return False
+
+    async def acquire(self):
+        while self.acquired >= self.n:
+            await _wait(("sem", self))
+        self.acquired += 1
+        return True
+
+    def release(self):
+        self.acquired -= 1
+
+    def locked(self):
+        return self.acquired >= self.n
 
 
 class _RunningLoop:
@@ -191,6 +203,8 @@ class Loop:
             return w[1].finished
         if w[0] == "joinall":
             return all(x.finished for x in w[1])
+        if w[0] == "sem":
+            return w[1].acquired < w[1].n
         return False  # idle: handled by the scheduler
 
     def _step(self, t):
